@@ -100,14 +100,15 @@ for tag in ('f32', 'f64'):
             kw['build'] = build
         R(nm, 'glm::%s(eye, center, up)%s  %s' % (fn, ' [GLM_FORCE_LEFT_HANDED]' if build else '', EXT), **kw)
     # handedness dispatch, relational: lookAt is entrywise lookAtRH (default) / lookAtLH (GLM_FORCE_LEFT_HANDED)
-    for other, build in (('lookAtRH', None), ('lookAtLH', 'c09_lh')):
-        nm = 'glm_lookAt_dispatch%s_%s' % ('_cfgLH' if build else '', tag)
+    # (the depth-range switch must not influence it: GLM_FORCE_DEPTH_ZERO_TO_ONE alone -> RH, together with GLM_FORCE_LEFT_HANDED -> LH)
+    for other, build in (('lookAtRH', None), ('lookAtLH', 'c09_lh'), ('lookAtRH', 'c09_rh_zo'), ('lookAtLH', 'c09_lh_zo')):
+        nm = 'glm_lookAt_dispatch%s_%s' % ({None: '', 'c09_lh': '_cfgLH', 'c09_rh_zo': '_cfgRHZO', 'c09_lh_zo': '_cfgLHZO'}[build], tag)
         d.shim(nm, 'void', e3 + c3 + u3, 'auto r = glm::lookAt(%s); %s auto q = glm::%s(%s); %s' % (
             lk_args, st4, other, lk_args, mat_store(4, 4, 'q', 'ref')), outs=[(T, 'out', 16), (T, 'ref', 16)])
         kw = dict(requires=look_req, ensures=[('lookAt_is_%s' % other, 'And(eqm(%s, mat(ref, 4, 4)))' % O4)])
         if build:
             kw['build'] = build
-        R(nm, 'glm::lookAt vs glm::%s%s  %s' % (other, ' [GLM_FORCE_LEFT_HANDED]' if build else '', EXT), **kw)
+        R(nm, 'glm::lookAt vs glm::%s%s  %s' % (other, ' [%s]' % build if build else '', EXT), **kw)
 
     # ------------------------------------------------------------------ gtx/transform: builders == ext(identity, ...) == E
     GT = 'glm/gtx/transform.inl'
@@ -229,6 +230,10 @@ for tag in ('f32', 'f64'):
 
 flat = P.build(d, 'flat', defines=['GLM_ENABLE_EXPERIMENTAL'])
 lh = P.build(d, 'flat', defines=['GLM_ENABLE_EXPERIMENTAL', 'GLM_FORCE_LEFT_HANDED'], tag='c09_lh')
+rh_zo = P.build(d, 'flat', defines=['GLM_ENABLE_EXPERIMENTAL', 'GLM_FORCE_DEPTH_ZERO_TO_ONE'], tag='c09_rh_zo')
+lh_zo = P.build(d, 'flat', defines=['GLM_ENABLE_EXPERIMENTAL', 'GLM_FORCE_LEFT_HANDED', 'GLM_FORCE_DEPTH_ZERO_TO_ONE'], tag='c09_lh_zo')
+for _b in (rh_zo, lh_zo):
+    _b.only = {n for n in d.order if 'lookAt_dispatch' in n}
 for fn, real, kw in contracts:
     kw.setdefault('timeout', 120)
     P.contract(fn, real, kind='R', **kw)
